@@ -18,8 +18,8 @@ claimed = {
    note="Trusted: Go memory model; sha512/subtle/binary/rand/x-crypto functions are goroutine-safe and stateless. VerifyBatch is under contract (write frames apply); the heap routines and multiScalarmultVartime are trusted to write only the scratch heap they are handed: for them only parts (2) and (3) apply. A caller overwriting x25519.Basepoint is outside the property. No schedule or history is enumerated, so violations carry no failing input.",
    ref="DESIGN.md §6 C15, §13"),
  "C01": dict(
-   text="verify / Verify / VerifyWithOptions are verified against one contract: result == vspec(A, M, sig, f, c, zip215), the documented predicate (lengths, S < L via scMinimal, decodability of A and R, small-order rejection in default mode only, and the cofactored group equation on the decoded points with h = SHA-512(dom2 || R || A || M) mod L). Every function between the API and the field arithmetic (ge25519, modm, curve25519; both limb layouts) is checked against its own contract, callers against callee contracts only. Proof level for all inputs; the group-theoretic reading of the leaf formulas and the double-base multiplication result are named assumptions, not proved.",
-   note="Trusted: go/ssa, govc, solvers; bridge lemmas B1-B12 (field formulas = group law/encoding), group axioms M2/M4, SHA-512 as a function (M6); DoubleScalarmultVartime's group-level result is an assumed postcondition (its safety, magnitudes and frame are proved); the rejection direction of point decoding (returns false => not decodable) is assumed (M3). Batch verification is not covered.",
+   text="verify / Verify / VerifyWithOptions are verified against one contract: result == vspec(A, M, sig, f, c, zip215), the documented predicate (lengths, S < L via scMinimal, decodability of A and R, small-order rejection in default mode only, and the cofactored group equation on the decoded points with h = SHA-512(dom2 || R || A || M) mod L). Every function between the API and the field arithmetic (ge25519, modm, curve25519; both limb layouts) is checked against its own contract, callers against callee contracts only. Proof level for all inputs; the group-theoretic reading of the leaf formulas is a named assumption (bridge lemmas); the double-base multiplication [S]B + [h](-A) is proved from its loop (Horner invariant) relative to the assumed digit property of the sliding-window recoding.",
+   note="Trusted: go/ssa, govc, solvers; bridge lemmas B1-B12 (field formulas = group law/encoding), group axioms M2/M4, SHA-512 as a function (M6); the digit property of ContractSlidingWindow's second phase and Horner's rule (under which DoubleScalarmultVartime's result is proved); the rejection direction of point decoding (returns false => not decodable) is assumed (M3). Batch verification is not covered.",
    ref="DESIGN.md §6 C01, §11"),
  "C02": dict(
    text="NewKeyFromSeed, sign, Sign and PrivateKey.Sign are verified against RFC 8032 spec functions: public key = enc([clamp(SHA-512(seed)[0:32])]B), R = enc([r]B) with r = SHA-512(dom2 || prefix || M) mod L, S = (r + SHA-512(dom2 || R || A || M) * a) mod L written canonically, result a fresh 64-byte slice, a function of (key, message, variant, context) only. The fixed-base multiplication P3(r) == mulB(s) is proved from the table facts (validated by ground evaluation against an executable curve specification) and the addition/doubling contracts. Both limb layouts; proof level, no input bound.",
@@ -58,8 +58,8 @@ claimed = {
    note="Trusted: model of io.ReadFull; the lemma NewKeyFromSeed(k.Seed()) == k is a consequence of the contracts (determinism of NewKeyFromSeed as a function of the seed bytes).",
    ref="DESIGN.md §6 C14"),
  "C16": dict(
-   text="ScalarmultBaseNiels is proved to return [s]B (P3(r) == mulB(sval s)) for every canonical scalar from: ContractWindow4's digit contract, the table-selection contract (544 concrete (pos, digit) cases of the Go selector decided against the ground-validated table), the niels addition and doubling contracts and ground instances of the group axioms. The 256 table entries, the sliding-window table and the curve constants are validated by exact evaluation against an executable Edwards-curve specification (obligations of kind `ground`). DoubleScalarmultVartime: memory safety, magnitude discipline, loop invariants and frame proved.",
-   note="NOT proved: the group-level result of DoubleScalarmultVartime (assumed postcondition lc2(P, s1, s2)) and the digit property of ContractSlidingWindow (assumed); the amd64 assembly selector has an assumed contract. Trusted: bridge lemmas, group axioms.",
+   text="ScalarmultBaseNiels is proved to return [s]B (P3(r) == mulB(sval s)) for every canonical scalar from: ContractWindow4's digit contract, the table-selection contract (544 concrete (pos, digit) cases of the Go selector decided against the ground-validated table), the niels addition and doubling contracts and ground instances of the group axioms. The 256 table entries, the sliding-window table and the curve constants are validated by exact evaluation against an executable Edwards-curve specification (obligations of kind `ground`). DoubleScalarmultVartime returns [s1]P + [s2]B: proved from its body relative to the sliding-window digit property.",
+   note="DoubleScalarmultVartime: P3(r) == lc2(P, s1, s2) proved from the body via a Horner-form loop invariant, table lemmas by case analysis and the ground-validated sliding table. NOT proved: the digit property of ContractSlidingWindow's second phase (assumed) and Horner's rule (mathematics); the amd64 assembly selector has an assumed functional contract. Trusted: bridge lemmas, group axioms.",
    ref="DESIGN.md §6 C16"),
  "C20": dict(
    text="Every function reachable from NewKeyFromSeed, GenerateKey, sign/Sign/PrivateKey.Sign, PrivateKey.Equal/Seed/Public, x25519.ScalarBaseMult and EdPrivateKeyToX25519 carries a secrecy clause (ct); each body is checked against its own clause on go/ssa: no branch condition, index, slice bound, division, allocation size or variable-time callee depends on secret data, calls are checked against the callee's clause only, on four build configurations (assembly selector scanned mechanically: no jumps, fixed-offset memory operands). Found F2 (PrivateKey.Equal used bytes.Equal), repaired by a fix: commit.",
@@ -80,7 +80,7 @@ claimed = {
 }
 
 not_applicable = {
- "C03": "not claimed: the statement needs (a) the lemma sign(..) => vspec(..) = true, whose proof goes through the group-level result of DoubleScalarmultVartime -- an assumed postcondition in the current contracts -- and the prime-order facts about honest R and A (M4), and (b) acceptance by VerifyBatch at every position and size: VerifyBatch's contract (C06) proves that a valid entry is never reported false, which together with (a) would give the batch half, but (a) is missing. The canonical-S half (S < L) is covered by C02/C04/C19 (sign writes modm.Contract of a reduced value; proved). No other technique is substituted.",
+ "C03": "not claimed: the statement needs (a) the lemma sign(..) => vspec(..) = true over the sign and verify contracts, which needs further mathematical axioms not in the trusted base so far (mulB depends on its argument mod L, encoding round trip, honest keys are not of small order: M4) and non-linear reasoning about S = r + h*a; it was not built, and (b) acceptance by VerifyBatch at every position and size: VerifyBatch's contract (C06) proves that a valid entry is never reported false, which together with (a) would give the batch half, but (a) is missing. The canonical-S half (S < L) is covered by C02/C04/C19 (sign writes modm.Contract of a reduced value; proved). No other technique is substituted.",
  "C17": "not claimed: exactness of multiScalarmultVartime (sum of [s_i]P_i) needs the heap order/permutation invariants and a group-level loop invariant for the Bos-Coster loop, which are not built (the routine has only a trusted safety contract); the statement is also only true outside a degenerate case the property itself calls negligible (second-largest scalar reaching zero before the 128-bit scalars are inserted, DESIGN.md §6 C17), and 'negligible fraction of entropy streams' is not expressible as a contract.",
 }
 
